@@ -7,7 +7,7 @@ HERE = os.path.dirname(os.path.dirname(os.path.abspath(__file__)))
 d = os.path.join(HERE, "seeded", name)
 os.makedirs(d, exist_ok=True)
 for f in ("patch.diff", "demo.py", "notes.md"):
-    p = os.path.join("/tmp/seedout", src, f)
+    p = os.path.join(os.environ.get("SEEDOUT", "/tmp/seedout"), src, f)
     if os.path.exists(p):
         shutil.copy(p, os.path.join(d, f))
 head = subprocess.run(["git", "-C", "/repo", "rev-parse", "--short", "HEAD"], capture_output=True, text=True).stdout.strip()
